@@ -281,15 +281,15 @@ def siteNames (e : Expr) : List String :=
 def ksStr (ks : List String) : String := "(ks" ++ String.join (ks.map (fun k => " " ++ jq k)) ++ ")"
 
 /-- fields about Prepare: A = criteria as applied, rk/m = kinds on the real pattern and the real WHERE after Prepare -/
-def answerP (fix7 : Bool) (a : Expr) (rk : Option (List String)) (m : Option Expr) : String :=
+def answerP (pm : PrepMode) (a : Expr) (rk : Option (List String)) (m : Option Expr) : String :=
   let sn := dedup (siteNames a)
   let nsites := (siteNames a).length
   let sites := "\tsites " ++ (if sn.isEmpty then "-" else ",".intercalate sn) ++ (if nsites > 1 then ",multi" else "")
-  match (if !fix7 then prepare a else some (prepareFix7 a)) with
+  match (match pm with | .live => prepare a | .fix7 => some (prepareFix7 a) | .guarded => prepareGuarded a) with
   | none => "\tpk error\tpw error\teqreal skip\teqapplied skip" ++ sites
   | some (pk, pw) =>
     let eqApplied :=
-      match (if !fix7 then prep false false true a else some (prepFix7 false false false true true a)) with
+      match (match pm with | .fix7 => some (prepFix7 false false false true true a) | _ => prep false false true a) with
       | some (h0, w0) =>
         let (t1, fm) := compileMeaning #[] (flattenKinds h0) w0
         let (t2, fa) := compileF t1 a
@@ -434,7 +434,7 @@ def normQd (q : Query) : Query := { q with pattern := q.pattern.map dedupEl, whe
 
 /-- fields about the whole query: QM = the model the text was rendered from (after Prepare), QR = the real re-parse,
 QA = the query as applied (parameters unnamed, pattern kinds not yet hoisted) -/
-def answerQ (fix7 : Bool) (qm qr qa : Sexp) : String :=
+def answerQ (pm : PrepMode) (qm qr qa : Sexp) : String :=
   match readQuery qm with
   | .unmodelled t => "\tqunmodelled " ++ t
   | .bad w => "\tqbad " ++ w
@@ -450,13 +450,13 @@ def answerQ (fix7 : Bool) (qm qr qa : Sexp) : String :=
     | .atom "none" => base
     | _ =>
       match readQuery qa with
-      | .ok a => base ++ "\tqprep " ++ (match prepareQ fix7 a with | some x => queryStr x | none => "error")
+      | .ok a => base ++ "\tqprep " ++ (match prepareQ pm a with | some x => queryStr x | none => "error")
       | _ => base
 
 /-! ### steps -/
 structure St where
   fixed : Bool := false
-  prepFix7 : Bool := false
+  pm : PrepMode := .live
 
 def emitter (st : St) : Expr → List Tok := if st.fixed then emit else emitOld
 
@@ -499,7 +499,7 @@ def stepE (st : St) (m r : Sexp) : String :=
       | .unmodelled t => answerE st m' none ++ "\trunmodelled " ++ t
       | .bad w => "bad-op re " ++ w
 
-/-- `e <mode> M R A RK` (mode fixed = format.go and Prepare as they are, fix7 = Prepare with the proposal hooks/C10-fix7,
+/-- `e <mode> M R A RK` (mode fixed = format.go and Prepare as they are, fix7 / fix8 = Prepare with the proposal hooks/C10-fix7 / C10-fix8,
 current = format.go before the three emitter fixes): as `e`, plus the Prepare fields when the applied criteria A are in the algebra -/
 def stepEP (st : St) (m r a rk : Sexp) : String :=
   let base := match m with
@@ -518,7 +518,7 @@ def stepEP (st : St) (m r a rk : Sexp) : String :=
   | .atom "none" => base
   | _ =>
     match readExpr a with
-    | .ok a' => base ++ answerP st.prepFix7 a' (if mBad then none else rkv) mv
+    | .ok a' => base ++ answerP st.pm a' (if mBad then none else rkv) mv
     | _ => base
 
 def step (st : St) (ts : List String) : St × String :=
@@ -531,10 +531,10 @@ def step (st : St) (ts : List String) : St × String :=
     | some [.atom "e", .atom "fixed", m, r] => (st, stepE { st with fixed := true } m r)     -- per-line mode, no state
     | some [.atom "e", .atom "current", m, r] => (st, stepE { st with fixed := false } m r)
     | some [.atom "e", .atom md, m, r, a, rk] =>
-      (st, stepEP { st with fixed := md == "fixed" || md == "fix7", prepFix7 := md == "fix7" } m r a rk)
+      (st, stepEP { st with fixed := md == "fixed" || md == "fix7" || md == "fix8", pm := (if md == "fix7" then .fix7 else if md == "fix8" then .guarded else .live) } m r a rk)
     | some [.atom "e", .atom md, m, r, a, rk, qm, qr, qa] =>
-      let st' := { st with fixed := md == "fixed" || md == "fix7", prepFix7 := md == "fix7" }
-      (st, stepEP st' m r a rk ++ (if st'.fixed then answerQ st'.prepFix7 qm qr qa else ""))
+      let st' := { st with fixed := md == "fixed" || md == "fix7" || md == "fix8", pm := (if md == "fix7" then .fix7 else if md == "fix8" then .guarded else .live) }
+      (st, stepEP st' m r a rk ++ (if st'.fixed then answerQ st'.pm qm qr qa else ""))
     | some [.atom "o", o] =>
       match readOperand o with
       | .ok o' =>
